@@ -28,7 +28,7 @@ PLAN  = {"quick":    {"shards": 16, "cases": 6400,   "timeout": 900,  "budget_s"
 REQUIRED = ["sched.histories", "sched.contended-index", "hook.lock.acquire", "hook.array.set", "hook.inner.write", "hook.inner.read",
             "hook.sleep", "oracle.M1.read-enter", "oracle.M1.write-enter", "oracle.M2.getter", "oracle.M3.complete-value",
             "oracle.M4.quiescence", "inject.getter-raise", "inject.body-raise", "disk.write-fault", "disk.cut-byte",
-            "threads.runs", "threads.M3.complete-value", "procs.runs", "procs.M2.getter", "procs.M3.complete-value", "procs.M4.quiescence", "cm.runs", "cm.M2.getter", "cm.M3.complete-value", "memory.getter-fault"]
+            "threads.runs", "threads.M3.complete-value", "procs.runs", "procs.M2.getter", "procs.M3.complete-value", "procs.M4.quiescence", "cm.runs", "cm.M2.getter", "cm.M3.complete-value", "memory.getter-fault", "cachers.near-equal-keys"]
 ASSUMPTIONS = ["a caller never nests get_set on two different keys whose 16-bit hashes collide; nested calls follow a global key order",
                "granularity of part A = lock acquisitions/releases, shared-counter reads/writes, inner-cache operations, retry sleeps",
                "a watchdog or step cap firing without an established deadlock state is inconclusive, not a violation"]
@@ -444,6 +444,31 @@ def disk_faults(ctx, rng, n_values):
                 except (EOFError, OSError, gzip.BadGzipFile, UnicodeDecodeError, Exception) as e:
                     ctx.count("disk.cut-byte.raised")
             c.rmv(key)
+            # (4) keys that differ only slightly (letter case, a digit, a suffix) are different entries: each has its own getter run,
+            #     its own value, and removing one leaves the other (memory and disk, plain and behind the ConcurrentCacher)
+            base = rng.choice(["census_a", "k", "Data7", "openml_042693_arff"])
+            fam = list(dict.fromkeys([base, base.upper(), base.capitalize(), base.swapcase(), base + "0", base + "_"]))[:rng.choice([2, 3, 4])]
+            for inner_kind in ("disk", "memory"):
+                for wrap in ("plain", "concurrent"):
+                    inner = cc.DiskCacher(d) if inner_kind == "disk" else cc.MemoryCacher()
+                    c = inner if wrap == "plain" else cc.ConcurrentCacher(inner)
+                    for k in fam: c.rmv(k)
+                    ran = Counter(); bad = None
+                    for k in fam:
+                        if k in c: bad = (f"M2/{inner_kind}/near-equal-keys/key-reported-as-cached-before-it-was-set", f"{k!r} in cacher although only {fam[:fam.index(k)]} were set"); break
+                        def g(k=k): ran[k] += 1; return [f"{k}:{j}" for j in range(3)]
+                        with c.get_set(k, g) as f: got = [l.rstrip("\n") for l in f]
+                        if got != [f"{k}:{j}" for j in range(3)] or ran[k] != 1:
+                            bad = (f"M3/{inner_kind}/near-equal-keys/wrong-value-or-getter-not-run", f"get_set({k!r}) after {fam[:fam.index(k)]}: got {got[:2]} getter ran {ran[k]}x"); break
+                    if not bad:
+                        c.rmv(fam[0])
+                        for k in fam[1:]:
+                            if k not in c: bad = (f"M3/{inner_kind}/near-equal-keys/rmv-removed-another-key", f"rmv({fam[0]!r}) removed {k!r}"); break
+                            with c.get_set(k, lambda: ["never"]) as f: got = [l.rstrip("\n") for l in f]
+                            if got != [f"{k}:{j}" for j in range(3)]: bad = (f"M3/{inner_kind}/near-equal-keys/wrong-value-after-rmv-of-another-key", f"{k!r} reads {got[:2]}"); break
+                    ctx.count("cachers.near-equal-keys"); ctx.case(("near-equal", inner_kind, wrap, tuple(fam)))
+                    for k in fam: c.rmv(k)
+                    if bad: viol.append(bad)
     finally:
         shutil.rmtree(d, ignore_errors=True)
     return viol
